@@ -61,3 +61,49 @@ Fixpoint sexec (e : senv) (st : sstmt) (s : sstate) : sstate * option str :=
   end.
 
 Definition srun (e : senv) (body : sstmt) : option str := snd (sexec e body (mk_sst [] [])).
+
+(* ---- the to_string() members of request_line, response_line, chunk_header and last_chunk ----------------------------------
+   A local std::string that is initialised, appended to (output += e, where e is built with std::operator+ from string
+   members of *this, character and string literals, CRLF, http_version(major_version_, minor_version_) and
+   std::to_string(status_)), one `if (!member.empty())` around an append, and returned.  The string members of the class
+   are numbered by the translator in a fixed order (request_line: method_, uri_; response_line: reason_phrase_;
+   chunk_header: hex_size_, extension_; last_chunk: extension_, trailer_string_).  std::to_string(int) of the (never
+   negative) status_ is the model's to_dec_string. *)
+Inductive xexp :=
+  | XMem (k : nat)                           (* a std::string member of *this *)
+  | XChr (c : byte)                          (* 'c' *)
+  | XLit (s : str)                           (* "..." *)
+  | XCrLf                                    (* CRLF *)
+  | XCat (a b : xexp)                        (* a + b *)
+  | XHttpVersion                             (* http_version(major_version_, minor_version_) *)
+  | XStatusDec.                              (* std::to_string(status_) *)
+Inductive xstmt :=
+  | XInit (e : xexp)                         (* std::string output(e) *)
+  | XAppend (e : xexp)                       (* output += e *)
+  | XIfNotEmpty (k : nat) (t : xstmt)        (* if (!member_k.empty()) t *)
+  | XSeq (a b : xstmt)
+  | XReturn.
+
+Record xenv := mk_xenv { xe_strs : list str; xe_major : byte; xe_minor : byte; xe_status : N }.
+
+Fixpoint xeval (e : xenv) (x : xexp) : str :=
+  match x with
+  | XMem k => nth k (xe_strs e) []
+  | XChr c => [c]
+  | XLit s => s
+  | XCrLf => CRLF
+  | XCat a b => xeval e a ++ xeval e b
+  | XHttpVersion => http_version (xe_major e) (xe_minor e)
+  | XStatusDec => to_dec_string (xe_status e)
+  end.
+
+Fixpoint xexec (e : xenv) (st : xstmt) (out : str) : str * option str :=
+  match st with
+  | XInit x => (xeval e x, None)
+  | XAppend x => (out ++ xeval e x, None)
+  | XIfNotEmpty k t => match nth k (xe_strs e) [] with [] => (out, None) | _ => xexec e t out end
+  | XSeq a b => match xexec e a out with (o1, None) => xexec e b o1 | r => r end
+  | XReturn => (out, Some out)
+  end.
+
+Definition xrun (e : xenv) (body : xstmt) : option str := snd (xexec e body []).
